@@ -304,7 +304,7 @@ ANIaddentry(int32    an_id, /* IN: annotation interface id */
     HEclear();
 
     /* convert an_id i.e. file_id to file rec and check for validity */
-    file_rec = HAatom_object(an_id);
+    file_rec = HIfile_rec(an_id);
     if (BADFREC(file_rec))
         HGOTO_ERROR(DFE_ARGS, FAIL);
 
@@ -432,7 +432,7 @@ ANIcreate_ann_tree(int32    an_id,/* IN: annotation interface id */
     HEclear();
 
     /* convert an_id i.e. file_id to file rec and check for validity */
-    file_rec = HAatom_object(an_id);
+    file_rec = HIfile_rec(an_id);
     if (BADFREC(file_rec))
         HGOTO_ERROR(DFE_ARGS, FAIL);
 
@@ -605,7 +605,7 @@ ANInumann(int32    an_id,  /* IN: annotation interface id */
     HEclear();
 
     /* convert an_id i.e. file_id to file rec and check for validity */
-    file_rec = HAatom_object(an_id);
+    file_rec = HIfile_rec(an_id);
     if (BADFREC(file_rec))
         HGOTO_ERROR(DFE_ARGS, FAIL);
 
@@ -666,7 +666,7 @@ ANIannlist(int32    an_id,  /* IN: annotation interface id */
     HEclear();
 
     /* convert an_id i.e. file_id to file rec and check for validity */
-    file_rec = HAatom_object(an_id);
+    file_rec = HIfile_rec(an_id);
     if (BADFREC(file_rec))
         HGOTO_ERROR(DFE_ARGS, FAIL);
 
@@ -722,7 +722,7 @@ ANIannlen(int32 ann_id /*  IN: annotation id */)
     HEclear();
 
     /* get annotation record */
-    ann_node = HAatom_object(ann_id);
+    ann_node = (HAatom_group(ann_id) == ANIDGROUP) ? HAatom_object(ann_id) : NULL;
     if (NULL == ann_node)
         HGOTO_ERROR(DFE_ARGS, FAIL);
 
@@ -808,7 +808,7 @@ ANIreadann(int32 ann_id, /* IN: annotation id (handle) */
     HEclear();
 
     /* get annotation record */
-    ann_node = HAatom_object(ann_id);
+    ann_node = (HAatom_group(ann_id) == ANIDGROUP) ? HAatom_object(ann_id) : NULL;
     if (NULL == ann_node)
         HGOTO_ERROR(DFE_ARGS, FAIL);
 
@@ -936,7 +936,7 @@ ANIwriteann(int32       ann_id, /* IN: annotation id */
     HEclear();
 
     /* get annotation record */
-    ann_node = HAatom_object(ann_id);
+    ann_node = (HAatom_group(ann_id) == ANIDGROUP) ? HAatom_object(ann_id) : NULL;
     if (NULL == ann_node)
         HGOTO_ERROR(DFE_ARGS, FAIL);
 
@@ -947,7 +947,7 @@ ANIwriteann(int32       ann_id, /* IN: annotation id */
     ann_ref = AN_KEY2REF(ann_key);
 
     /* convert file_id to file rec and check for validity */
-    file_rec = HAatom_object(file_id);
+    file_rec = HIfile_rec(file_id);
     if (BADFREC(file_rec))
         HGOTO_ERROR(DFE_INTERNAL, FAIL);
 
@@ -1143,7 +1143,7 @@ ANstart(int32 file_id /* IN: file to start annotation access on*/)
     HEclear();
 
     /* convert file id to file rec and check for validity */
-    file_rec = HAatom_object(file_id);
+    file_rec = HIfile_rec(file_id);
     if (BADFREC(file_rec))
         HGOTO_ERROR(DFE_ARGS, FAIL);
 
@@ -1188,7 +1188,7 @@ ANfileinfo(int32  an_id,        /* IN:  annotation interface id */
     HEclear();
 
     /* convert an_id i.e. file_id to file rec and check for validity */
-    file_rec = HAatom_object(an_id);
+    file_rec = HIfile_rec(an_id);
     if (BADFREC(file_rec))
         HGOTO_ERROR(DFE_ARGS, FAIL);
 
@@ -1251,7 +1251,7 @@ ANend(int32 an_id /* IN: Annotation ID of file to close */)
     HEclear();
 
     /* convert an_id i.e. file_id to file rec and check for validity */
-    file_rec = HAatom_object(an_id);
+    file_rec = HIfile_rec(an_id);
     if (BADFREC(file_rec))
         HGOTO_ERROR(DFE_ARGS, FAIL);
 
@@ -1450,7 +1450,7 @@ ANselect(int32    an_id, /* IN: annotation interface ID */
     HEclear();
 
     /* convert an_id i.e. file_id to file rec and check for validity */
-    file_rec = HAatom_object(an_id);
+    file_rec = HIfile_rec(an_id);
     if (BADFREC(file_rec))
         HGOTO_ERROR(DFE_ARGS, FAIL);
 
@@ -1690,7 +1690,7 @@ ANget_tagref(int32    an_id, /* IN: annotation interface ID */
     HEclear();
 
     /* convert an_id i.e. file_id to file rec and check for validity */
-    file_rec = HAatom_object(an_id);
+    file_rec = HIfile_rec(an_id);
     if (BADFREC(file_rec))
         HGOTO_ERROR(DFE_ARGS, FAIL);
 
@@ -1768,7 +1768,7 @@ ANid2tagref(int32   ann_id, /* IN: annotation id */
 
     /* Valid annotation id */
     /* get annotation record */
-    ann_node = HAatom_object(ann_id);
+    ann_node = (HAatom_group(ann_id) == ANIDGROUP) ? HAatom_object(ann_id) : NULL;
     if (NULL == ann_node)
         HGOTO_ERROR(DFE_ARGS, FAIL);
 
@@ -1836,7 +1836,7 @@ ANtagref2id(int32  an_id,   /* IN  Annotation interface id */
     HEclear();
 
     /* convert an_id i.e. file_id to file rec and check for validity */
-    file_rec = HAatom_object(an_id);
+    file_rec = HIfile_rec(an_id);
     if (BADFREC(file_rec))
         HGOTO_ERROR(DFE_ARGS, FAIL);
 
